@@ -1,6 +1,7 @@
 package gomatrixserverlib
 
 import (
+	"bytes"
 	"encoding/json"
 	"reflect"
 	"strings"
@@ -197,4 +198,19 @@ func exactFieldsOnly(eventJSON []byte, keepStruct interface{}) ([]byte, error) {
 		}
 	}
 	return json.Marshal(exact)
+}
+
+// exactMembersOnly is exactFieldsOnly for readers that hand the result to json.Unmarshal themselves: a
+// JSON object is restricted to the members whose names are exactly the JSON names of the fields of the
+// given keep struct; anything else (null, a value of another type, invalid JSON) is returned as it is, so
+// that json.Unmarshal treats it the way it always did.
+func exactMembersOnly(content []byte, keepStruct interface{}) []byte {
+	if object := bytes.TrimLeft(content, " \t\r\n"); len(object) == 0 || object[0] != '{' {
+		return content
+	}
+	exact, err := exactFieldsOnly(content, keepStruct)
+	if err != nil {
+		return content
+	}
+	return exact
 }
